@@ -1,6 +1,6 @@
 ---- MODULE TxRequestPrio ----
 (* SAMPLE. PrioFromImpl[t][p][1 + preferred] = rank of ComputePriority(txhash t, peer p, preferred) among the announcements *)
 (* of the same preferredness; higher is better.                                                                          *)
-(* props/C34.py writes the real table (same shape) to .build/work/C34/spec/TxRequestPrio.tla and runs TLC there.       *)
+(* props/C34.py writes the real table (same shape) to .build/work/C34/spec-<config>/TxRequestPrio.tla and runs TLC there. *)
 PrioFromImpl == << << <<1, 4>>, <<2, 6>>, <<3, 5>> >>, << <<3, 6>>, <<2, 4>>, <<1, 5>> >> >>
 ====
